@@ -13,6 +13,7 @@ import (
 	policyv1 "k8s.io/api/policy/v1"
 	metav1 "k8s.io/apimachinery/pkg/apis/meta/v1"
 	"k8s.io/apimachinery/pkg/types"
+	"k8s.io/apimachinery/pkg/util/intstr"
 	clock "k8s.io/utils/clock/testing"
 	"sigs.k8s.io/controller-runtime/pkg/client"
 	"sigs.k8s.io/controller-runtime/pkg/client/interceptor"
@@ -26,6 +27,7 @@ import (
 	"sigs.k8s.io/karpenter/pkg/operator/options"
 	"sigs.k8s.io/karpenter/pkg/test"
 	testv1alpha1 "sigs.k8s.io/karpenter/pkg/test/v1alpha1"
+	disruptionutils "sigs.k8s.io/karpenter/pkg/utils/disruption"
 	nodeutils "sigs.k8s.io/karpenter/pkg/utils/node"
 	"sigs.k8s.io/karpenter/pkg/utils/pdb"
 
@@ -81,6 +83,10 @@ func mkClaim(n SNode) *v1.NodeClaim {
 		nc.DeletionTimestamp = &metav1.Time{Time: at(-60e9)}
 		nc.Finalizers = []string{v1.TerminationFinalizer}
 	}
+	if c.ExpireAfter != nil {
+		d := time.Duration(*c.ExpireAfter)
+		nc.Spec.ExpireAfter = v1.NillableDuration{Duration: &d}
+	}
 	if c.TGP {
 		nc.Spec.TerminationGracePeriod = &metav1.Duration{Duration: 5 * time.Minute}
 	}
@@ -95,6 +101,9 @@ func mkNode(n SNode) *corev1.Node {
 	nd := &corev1.Node{ObjectMeta: metav1.ObjectMeta{Name: "node-" + n.ID, Labels: realMap(k.Labels), Annotations: realMap(k.Annos),
 		UID: types.UID("nuid-" + n.ID), CreationTimestamp: metav1.Time{Time: at(-7000e9)}}}
 	nd.Spec.ProviderID = n.ID
+	if k.NoProviderID {
+		nd.Spec.ProviderID = ""
+	}
 	if k.Deleting {
 		nd.DeletionTimestamp = &metav1.Time{Time: at(-60e9)}
 		nd.Finalizers = []string{v1.TerminationFinalizer}
@@ -155,6 +164,16 @@ func mkPDB(b PDB) *policyv1.PodDisruptionBudget {
 	if b.Always {
 		pol := policyv1.AlwaysAllow
 		o.Spec.UnhealthyPodEvictionPolicy = &pol
+	} else if b.IfHealthy {
+		pol := policyv1.IfHealthyBudget
+		o.Spec.UnhealthyPodEvictionPolicy = &pol
+	}
+	if b.FullyBlocking {
+		zero := intstr.FromInt32(0)
+		o.Spec.MaxUnavailable = &zero
+	}
+	if b.Invalid {
+		o.Spec.Selector = &metav1.LabelSelector{MatchExpressions: []metav1.LabelSelectorRequirement{{Key: "app", Operator: metav1.LabelSelectorOpIn}}}
 	}
 	o.Status.DisruptionsAllowed = b.Allowed
 	return o
@@ -168,7 +187,7 @@ func mkPool(p Pool) *v1.NodePool {
 		np.Spec.Template.Spec.NodeClassRef = &v1.NodeClassReference{Group: "other.sh", Kind: "OtherNodeClass", Name: "nodeclass"}
 	}
 	if p.Static {
-		r := int64(2)
+		r := p.Replicas
 		np.Spec.Replicas = &r
 	}
 	if p.After != nil {
@@ -206,7 +225,9 @@ func setup(w *World) *env {
 	var objs []client.Object
 	for _, p := range w.Pools {
 		objs = append(objs, mkPool(p))
-		if p.ItsErr {
+		if p.ItsErr && p.ItsErrKind == "unevaluated" {
+			e.cp.ErrorsForNodePool[p.Name] = cloudprovider.NewUnevaluatedNodePoolError(p.Name)
+		} else if p.ItsErr {
 			e.cp.ErrorsForNodePool[p.Name] = errors.New("injected GetInstanceTypes failure")
 		} else {
 			its := []*cloudprovider.InstanceType{}
@@ -285,6 +306,10 @@ func (e *env) apply(o Op) {
 		e.cluster.NominateNodeForPod(e.ctx, o.ID)
 	case "tick":
 		e.clk.Step(time.Duration(o.Dt))
+	case "delnode":
+		e.cluster.DeleteNode("node-" + o.ID)
+	case "delclaim":
+		e.cluster.DeleteNodeClaim("nc-" + o.ID)
 	case "refresh":
 		if nc, ok := e.claims[o.ID]; ok {
 			e.cluster.UpdateNodeClaim(nc.DeepCopy())
@@ -303,34 +328,38 @@ type wobs struct {
 	Cands  [][]string `json:"cands"` // nil = error
 	NodeOK []bool     `json:"node_ok"`
 	PodRes []string   `json:"pod_res"`
+	Noms   []bool     `json:"is_node_nominated"`
 }
 
 // runWorld executes the real code on w. It may rewrite w (pod order as the API lists them, nodes that
 // cluster state did not accept) so that the emitted model input describes the state the code saw.
 func runWorld(c *kit.Ctx, w *World) wobs {
 	e := setup(w)
-	for _, o := range w.Ops {
-		e.apply(o)
+	// describe the StateNodes as cluster state accepted them (before any operation)
+	stateNodes := func() map[string]*state.StateNode {
+		sn := map[string]*state.StateNode{}
+		for _, n := range e.cluster.DeepCopyNodes() {
+			sn[n.ProviderID()] = n
+		}
+		return sn
 	}
-	// describe the StateNodes as they are in cluster state
-	sn := map[string]*state.StateNode{}
-	for _, n := range e.cluster.DeepCopyNodes() {
-		sn[n.ProviderID()] = n
-	}
+	sn := stateNodes()
 	idx := map[string]int{}
+	static := map[string][2]bool{}
 	for i := range w.Nodes {
 		n := &w.Nodes[i]
 		idx[n.ID] = i
 		s, ok := sn[n.ID]
-		if !ok {
-			panic("state node missing for " + n.ID)
-		}
-		if s.Node == nil {
+		if !ok || s.Node == nil {
+			if n.Node != nil {
+				c.Count("state:node-object-not-accepted")
+			}
 			n.Node = nil
 		}
-		if s.NodeClaim == nil {
+		if !ok || s.NodeClaim == nil {
 			n.Claim = nil
 		}
+		static[n.ID] = [2]bool{n.Claim != nil, n.Node != nil}
 		if n.Node == nil {
 			n.Pods = nil
 			continue
@@ -348,6 +377,14 @@ func runWorld(c *kit.Ctx, w *World) wobs {
 			n.Pods = append(n.Pods, byName[p.Namespace+"/"+p.Name])
 		}
 	}
+	for i := range w.Ops {
+		o := &w.Ops[i]
+		if o.Kind == "refresh" {
+			o.C, o.K = static[o.ID][0], static[o.ID][1]
+		}
+		e.apply(*o)
+	}
+	sn = stateNodes()
 	var o wobs
 	for mi, m := range e.methods {
 		e.faultOn = true
@@ -373,10 +410,28 @@ func runWorld(c *kit.Ctx, w *World) wobs {
 	}
 	limits, err := pdb.NewLimits(e.ctx, e.client)
 	if err != nil {
-		panic(err)
+		// an unparsable selector: evaluate the per-node pod validation against the parsable PDBs only
+		var objs []client.Object
+		for _, b := range w.PDBs {
+			if !b.Invalid {
+				objs = append(objs, mkPDB(b))
+			}
+		}
+		if limits, err = pdb.NewLimits(e.ctx, kit.NewClient(interceptor.Funcs{}, objs...)); err != nil {
+			panic(err)
+		}
+		c.Count("fault:pdb-invalid-selector")
 	}
 	for _, n := range w.Nodes {
-		s := sn[n.ID]
+		o.Noms = append(o.Noms, e.cluster.IsNodeNominated(n.ID))
+		s, ok := sn[n.ID]
+		if !ok {
+			// the entry left cluster state
+			o.NodeOK = append(o.NodeOK, false)
+			o.PodRes = append(o.PodRes, "POk")
+			c.Count("validate_node:entry-gone")
+			continue
+		}
 		verr := s.ValidateNodeDisruptable(e.clk)
 		o.NodeOK = append(o.NodeOK, verr == nil)
 		c.Count("validate_node:" + classify(verr))
@@ -440,6 +495,8 @@ func emitCond(c *kit.Ctx, i CInput) {
 	if i.LastPod != nil {
 		nc.Status.LastPodEventTime = metav1.Time{Time: at(*i.LastPod)}
 	}
+	under := disruptionutils.IsUnderConsolidateAfter(np, nc.DeepCopy(), clk)
+	c.Count(fmt.Sprintf("is_under_consolidate_after:%v", under))
 	res, err := ncdisruption.VerifNewConsolidation(kit.NewClient(interceptor.Funcs{}), clk).Reconcile(ctx, np, nc)
 	if err != nil {
 		panic(err)
@@ -455,7 +512,7 @@ func emitCond(c *kit.Ctx, i CInput) {
 		key = "C:" + i.G()
 	}
 	c.Count("consolidatable:" + map[bool]string{true: "absent", false: "present"}[got == nil] + ":" + map[bool]string{true: "requeue", false: "no-requeue"}[res.RequeueAfter != 0])
-	c.AddCase(fmt.Sprintf("CaseC %s %s %s", i.G(), gCond(gs_), gz(int64(res.RequeueAfter))), struct {
+	c.AddCase(fmt.Sprintf("CaseC %s %s %s %s", i.G(), gCond(gs_), gz(int64(res.RequeueAfter)), kit.GBool(under)), struct {
 		Kind    string  `json:"kind"`
 		Input   CInput  `json:"input"`
 		Result  *string `json:"result"`
